@@ -370,6 +370,9 @@ def run_pool(fn, items: list, *, workers: int, chunk_size: int, per_chunk_timeou
                 with open(out) as f:
                     rs = json.load(f)
                 os.unlink(out)
+                if os.environ.get("VERIF_DEBUG"):
+                    with contextlib.suppress(OSError):
+                        sys.stderr.write(open(out + ".err", errors="replace").read()[-300:])
                 for r in rs:
                     if r.get("status") == "error":
                         problems.append(r)
